@@ -2,6 +2,7 @@
 """Regenerates MANIFEST.json from the table below (keeps it schema-valid at all times)."""
 import json, os
 
+ENGINE_OF = {"C03": "linalg", "C13": "linalg+symx", "C05": "symx+linalg"}
 CHECKS = {}
 NA = {}
 
@@ -12,7 +13,7 @@ def check(pid, technique, category, text, note, design_ref):
         "thorough_cmd": f"./check {pid} --tier thorough",
         "evidence_file": f"evidence/{pid}.json",
         "replay_cmd_template": f"./check {pid} --replay {{path}}",
-        "engine": "symx",
+        "engine": ENGINE_OF.get(pid, "symx"),
         "level_claimed": {"category": category, "text": text, "design_ref": design_ref},
         "level_note": note,
         "technique": technique,
@@ -32,7 +33,8 @@ man = {
         "add_only": True,
     },
     "engines": [
-        {"name": "symx", "path": "vf/symx.py", "serves_properties": sorted(CHECKS), "kind_free_text": "symbolic execution of the real formulae code on z3-backed values (operator overloading, replay-based DFS over solver-decided forks); obligations discharged by z3 with timeouts; counterexamples replayed on the plain API"},
+        {"name": "linalg", "path": "vf/linalg.py", "serves_properties": [p for p in sorted(CHECKS) if "linalg" in ENGINE_OF.get(p, "")], "kind_free_text": "QF_LRA (z3) decision of rank / span statements over exact rational matrices produced by the real code; witnesses re-checked in exact arithmetic"},
+        {"name": "symx", "path": "vf/symx.py", "serves_properties": [p for p in sorted(CHECKS) if "symx" in ENGINE_OF.get(p, "symx")], "kind_free_text": "symbolic execution of the real formulae code on z3-backed values (operator overloading, replay-based DFS over solver-decided forks); obligations discharged by z3 with timeouts; counterexamples replayed on the plain API"},
     ],
     "checks": [CHECKS[p] for p in props if p in CHECKS],
     "not_applicable": [{"property_id": p, "reason": NA.get(p, "check not built yet in this round (see DESIGN.md section 4 for the plan)")} for p in props if p not in CHECKS],
